@@ -454,6 +454,13 @@ TFReaderObs ==
   /\ UNCHANGED <<root, fsnp, fseg, pol, inst, rd, life, cnt, tv>> /\ UNCHANGED Ghosts /\ UNCHANGED Unused
   /\ Judge(IF Ev.obs # tv.fobs[Ev.r] THEN {"C04_reader_changed", "C15_concurrent_searches_disagree"} ELSE {})
 
+\* two goroutines inside the deletion policy at once (the bundled policy is unsynchronised maps and slices and has
+\* a single caller, the persister): a note, not a verdict -- a data race is not decided by this specification
+TPolicyOverlap ==
+  /\ Step("PolicyOverlap")
+  /\ UNCHANGED <<root, fsnp, fseg, pol, inst, rd, life, cnt, tv>> /\ UNCHANGED Ghosts /\ UNCHANGED Unused
+  /\ viol' = AddViol({"NOTE_deletion_policy_entered_by_two_goroutines"})
+
 \* ---- faults, close, second writer -----------------------------------------------
 TAsyncError ==
   /\ Step("AsyncError")
@@ -550,7 +557,7 @@ TraceNext ==
   \/ TReset0 \/ TReset \/ TSkip \/ TPrepared \/ TPGrab \/ TMWake \/ TMergeTask \/ TOpenReturn \/ TOpenCall \/ TInvoke \/ TIntroBatch \/ TIntroMerge \/ TIntroPersist
   \/ TRootLoad \/ TRootNil \/ TReturn \/ TCallback \/ TPersistBegin \/ TPersistEnd \/ TLoadEnd \/ THandleClose
   \/ TCommit \/ TRemoveEnd \/ TReaderOpen \/ TRootObs \/ TReaderObs \/ TReaderClose \/ TAsyncError \/ TPResult
-  \/ TFReaderCall \/ TFReaderOpen \/ TFReaderObs
+  \/ TFReaderCall \/ TFReaderOpen \/ TFReaderObs \/ TPolicyOverlap
   \/ TCloseCall \/ TUnlock \/ TCloseReturn \/ TReopened \/ TStuck \/ TSecondOpen \/ TRecovered \/ TCrash
 
 TraceSpec == TraceInit /\ [][TraceNext]_tvars
